@@ -74,3 +74,8 @@ claim("C05",
       "Decides that every domain list the policy reads is lower-cased at load time and every predicate folds its argument, that the accept/store predicates equal the documented rule on all 8 assignments of (default flag, in-list, in-other-list) with membership tested on the folded domain, that the origin predicate refuses exactly on a wildcard match with (pattern=list element, subject=domain), that a recipient is appended / a sender accepted only if the policy agreed or an extension answered Allow, and that the recipient limit is strict. The wildcard matcher's arithmetic is not decided.",
       "Trusts go/ssa; configuration immutable after Process; SliceContains exactness is itself checked.",
       "DESIGN.md section 4, C05")
+claim("C12",
+      "dominance/control-dependence on a recognised expiry predicate (normalised forms), edge-relation check for the disabled case, select-arm analysis for cancellation, lock-held and slice-origin analysis for the visitor",
+      "Decides that the scan removes a message only on the true edge of an older-than-(now−period) test of that same message and addresses it by its own mailbox and id, that the scan is reachable only where retentionPeriod > 0, that every blocking point of the scanner observes ctx.Done() and every exit of Start closes the channel Join waits on, and that both stores call the visitor lock-free with a fresh slice. Clock boundaries, scans racing with directory changes, and promptness in seconds are not decided.",
+      "Trusts go/ssa and time package semantics.",
+      "DESIGN.md section 4, C12")
